@@ -63,9 +63,10 @@ def purity(rep: Report, prog: Program) -> None:
                 n_debug += 1
                 bound: Set[str] = set()
                 why = None
+                comp_locals = {id(t) for s in n.body for c in ast.walk(s) if isinstance(c, ast.comprehension) for t in ast.walk(c.target)}
                 for s in n.body:
                     for x in ast.walk(s):
-                        if isinstance(x, ast.Name) and isinstance(x.ctx, ast.Store): bound.add(x.id)
+                        if isinstance(x, ast.Name) and isinstance(x.ctx, ast.Store) and id(x) not in comp_locals: bound.add(x.id)
                         if isinstance(x, ast.Attribute) and isinstance(x.ctx, (ast.Store, ast.Del)): why = why or f"stores to `{norm(x)}`"
                         if isinstance(x, ast.Subscript) and isinstance(x.ctx, (ast.Store, ast.Del)): why = why or f"stores to `{norm(x)}`"
                         if isinstance(x, (ast.Return, ast.Break, ast.Continue)): why = why or f"contains `{type(x).__name__.lower()}` (control flow differs under -O)"
